@@ -177,7 +177,7 @@ func runUnit(spec *Spec, o *checkOpts, openKnown map[string]bool, openList []Kno
 		}
 		reached := 0
 		for k, s := range res.Sites {
-			if k == "$branch" {
+			if k == "$branch" || k == "$range" {
 				continue
 			}
 			reached += s.Trivial + s.Discharged + s.Violated + s.Unknown
